@@ -270,4 +270,33 @@ def udpAnswer (ch : ClientHello) : Except Err Bytes :=
   | .ok d => .ok (normalizeDomain d)
   | .error _ => .error .notFound
 
+/-! ## A flight of Initial packets over several datagrams -/
+
+/-- A QUIC Initial packet as the client built it: the long header, the protected part as it is on
+the wire (packet number + sealed payload: `body`; the header's Length field is its length), and the
+plaintext frames inside. -/
+structure InitialPkt where
+  hdr : InitialHdr
+  body : Bytes
+  items : List Item
+  tp : Nat                  -- trailing PADDING
+deriving Repr, Inhabited
+
+def InitialPkt.wire (p : InitialPkt) : Bytes := encodeHdr p.hdr p.body.length ++ p.body
+
+def InitialPkt.plain (p : InitialPkt) : Bytes := encodeItems p.items p.tp
+
+def InitialPkt.WF (p : InitialPkt) : Prop := p.hdr.WF p.body.length ∧ ∀ it ∈ p.items, it.frame.Fits
+
+/-- A datagram: one or more coalesced Initial packets. -/
+def dgWire (ps : List InitialPkt) : Bytes := (ps.map InitialPkt.wire).flatten
+
+/-- Header unprotection + AEAD answer every packet with its plaintext at the place where it lies in
+the session buffer (`base` = offset of the first one). -/
+def OracleFor (oracle : List Sealed) : Nat → List InitialPkt → Prop
+  | _, [] => True
+  | base, p :: ps =>
+    oracleLookup oracle base (encodeHdr p.hdr p.body.length).length p.wire.length p.hdr.dcid = some p.plain ∧
+      OracleFor oracle (base + p.wire.length) ps
+
 end DaeVerif.C06
